@@ -221,8 +221,16 @@ func (f *FailoverOf[V]) Get(
 					"key", key)
 			}
 
-			if !f.config.FailHard && !errors.Is(err, ErrNotFound) {
-				return val, nil
+			if !f.config.FailHard {
+				if err == nil { // Stale value was refreshed.
+					return val, nil
+				}
+
+				// Value that is too stale to be served during update is still better than a failure.
+				var errExpired ErrWithExpiredItemOf[V]
+				if errors.As(err, &errExpired) {
+					return errExpired.Value(), nil
+				}
 			}
 		}
 
